@@ -8,6 +8,9 @@ for d in sorted(glob.glob(root + '/seeded/*/')):
     sid = os.path.basename(d.rstrip('/'))
     clip = lambda s, n: (s[:n] + '…' if len(s) > n else s).replace('|', '/').replace('\n', ' ')
     det = ','.join(m.get('detected_by_quick_checks', [])) or '**none**'
+    if m.get('obsolete'):
+        det = 'obsolete'
+        m['note'] = (m.get('note', '') + ' - ' + m['obsolete']).strip(' -')
     rows.append('| %s | %s | %s | %s | %s |' % (sid, clip(m.get('summary', ''), 170), clip(m.get('needs_to_manifest', '') or m.get('needs', ''), 170), det, clip(m.get('note', ''), 220)))
 table = '%d changes kept; every quick check that first missed one was strengthened with more observability (a shape, a position, an operation), never by special-casing the change:\n\n' % len(rows)
 table += '| seeded | change | needs | caught by (quick) | note |\n|---|---|---|---|---|\n' + '\n'.join(rows) + '\n'
